@@ -199,7 +199,7 @@ def run_stress(rep, tier, seed, n, only=None, tag="stress", test=None):
 # mutating the clone) is computed on the Go side; listed here so that the streams are counted consistently
 CLONE = {
     "name": "clone", "pkg": "./internal/rules", "test": "TestVerifC07Clone",
-    "eval_module": None, "check_term": "(Go side only)", "n_quick": 300, "n_thorough": 3000,
+    "eval_module": "no Coq evaluator", "check_term": "(verdict computed on the Go side)", "n_quick": 300, "n_thorough": 3000,
 }
 
 # --------------------------------------------------------------------------- stream "sched": schedule exploration
@@ -287,6 +287,10 @@ def run_sched(rep, tier, seed, cmds, nm, replay=None):
         rep.notes.append("sched: the guarded type has more than 15 data fields; the replay's initial configuration cfg0 does not "
                          "cover it - the stream is skipped")
         return False, []
+    if os.environ.get("VERIF_C07_NOSLEEP"):
+        rep.notes.append("EXPERIMENT SWITCH VERIF_C07_NOSLEEP: the sleep-set reduction is OFF (plain enumeration under the same "
+                         "budget explores far fewer classes) - not a valid check run")
+        rep.obligation("switch:VERIF_C07_NOSLEEP-unset", False)
     n = SCHED["n_quick"] if tier == "quick" else SCHED["n_thorough"]
     summ = os.path.join(OUTD, "sched_summary.json")
     env = {"VERIF_SEED": seed, "VERIF_N": n, "VERIF_TIER": tier, "VERIF_C07_SKEL": os.path.join(OUTD, "skel.json"),
@@ -694,7 +698,7 @@ P = {
         "objects, inlining of addRulesTo/removeRulesFrom, closures as loop bodies; ANY other method call on or through a guarded "
         "field, escaping receivers, aliases, goroutines, a constructor used other than in fx.Provide ... become EUnsupported, which "
         "the Coq check rejects) and its syntactic classification of radixtree methods as receiver-mutating or not; 6 self-test "
-        "functions (table driven, about 35 cases: constructs to refuse, translations to produce, nested structs) run with every "
+        "functions (table driven: constructs to refuse, translations to produce, nested structs) run with every "
         "check (cached by source hash); Base/Locks.v method_paths (enumeration of paths: defers at returns, loops "
         "summarised as zero or one iteration of object accesses) is evaluated inside Coq but is not proved against Go's semantics.  "
         "Both are CROSS-CHECKED at run time on every explored schedule (stream sched): the events the instrumented code "
